@@ -61,16 +61,70 @@ CHECKS = {
         "trusts cachetools (LRUCache(maxsize=0) never stores; the counting subclass used on the memoised side does not change behaviour)",
         "deterministic simulation: seeded interleaving machine under cache pressure vs. unmemoised twin (differential oracle), ddmin-shrunk replay files",
     ),
+    "C16": (
+        "initcond",
+        "exploration",
+        "DESIGN.md 5.3",
+        "seeded sessions whose initial-condition solve is monitored at the first assemble and at states reached by running RATTLE and re-initialising (resting / sliding / sticking contacts, chains with compliance and actuators), plus injected corrupted-restart faults (velocity, position, penetration, approaching contact) that must be rejected and clean states that must be accepted. Sampled, not exhaustive.",
+        "trusts the System's model functions (M, h, W_*, g*, gamma_F*) used to evaluate the equations of motion; assembly runs with fixed_point_atol=1e-10, monitor tolerance 1e-6*(1+scale)",
+        "deterministic simulation: seeded sessions with per-assembly monitors and corrupted-restart fault injection (F3c), ddmin-shrunk replay files",
+    ),
+    "C17": (
+        "constraints",
+        "exploration",
+        "DESIGN.md 5.4",
+        "seeded sessions of all six dynamic solvers on random open / closed chains with buggified legal solver knobs; the solver-specific constraint / unit-quaternion / equation-of-motion invariant is evaluated at every stored step (Moreau at the recorded midpoint) against a bound reconstructed from the solver's own stopping criterion. Sampled; no adversarial schedule exists for this property, the 'schedule' is the knob / step-size / tolerance draw.",
+        "trusts the System's constraint functions; organic solver failures and redundantly constrained scenes are discards (counted); bounds c*(atol+rtol*scale)*sqrt(n), c=50",
+        "deterministic simulation: seeded solver runs under a step-boundary seam with per-step invariant monitors and buggified knobs, ddmin-shrunk replay files",
+    ),
+    "C18": (
+        "contactlaws",
+        "exploration",
+        "DESIGN.md 5.5",
+        "seeded sessions of the four nonsmooth solvers on sphere / plane scenes (restitution and friction in [0,1], resting, sliding, spinning, flying starts, anisotropic inertia) with buggified knobs; every stored step is checked for the discrete Signorini-Coulomb laws at the level the scheme enforces them (recorded midpoints for Moreau / DSV) and force-free frictionless scenes for kinetic-energy monotonicity. Sampled, not exhaustive.",
+        "trusts the contact kinematics (g_N, g_N_dot, gamma_F) of the System; 'closed' is decided by the harness from the gap; isotropic friction, e_F = 0; energy clause only for a common restitution coefficient",
+        "deterministic simulation: seeded solver runs under a step-boundary seam with recorded midpoint configurations and per-step invariant monitors, ddmin-shrunk replay files",
+    ),
+    "C20": (
+        "solution",
+        "exploration",
+        "DESIGN.md 5.7",
+        "seeded runs of all eight solvers over a sweep of (t0, t1, dt) including decimal-exact multiples that are inexact in binary, tiny runs and non-zero initial times, with injected truncation faults (forced Newton failure, SciPy back-end stop); grid start / step / end point, field shapes, iteration and save -> load through a real file are checked on every returned Solution. Sampled, not exhaustive.",
+        "Riks' arc-length parameter is exempt from the grid clauses; dill round trip through a private temp directory",
+        "deterministic simulation: seeded solver runs with truncation fault injection and a real-file save/load seam, contract checked on every returned Solution, ddmin-shrunk replay files",
+    ),
+    "C21": (
+        "nonconv",
+        "fault_enumeration",
+        "DESIGN.md 5.8",
+        "for each sampled session a fault-free pilot run enumerates, through the guarded decision hook, every loop instance reached (fsolve call j of step k, each fixed-point loop of step k); thorough forces every one of them (quick: a seeded sample of <= 6) to 'never converges' in a fresh run through the real code path, SciPy back ends get a back-end stop; the reaction (raise / warn naming the time and return converged steps only / warn and continue) is judged over the recorded event history; differential runs decide 'does not silently ignore' for contacts and actuators. Enumeration is complete per session (up to 80 points), sessions are sampled.",
+        "trusts the hook (add-only, reports every decision; forced decisions run the loop out of budget through the real branch); 'names the time' = number equal to the stop time / failed step time (3 digits) or the step index",
+        "deterministic simulation: convergence-fault injection at every enumerated injection point of a pilot run (decision hook seam), reaction oracle over the event history, ddmin-shrunk replay files",
+    ),
+    "C24": (
+        "restart",
+        "fault_enumeration",
+        "DESIGN.md 5.10",
+        "crash / restart fault at every split step of a sampled session (thorough; quick: 3 seeded split steps), system copy taken before or after the first leg, durable state handed over in memory or through save/load on disk; oracles: second leg equals the uninterrupted run, model identity against a system the harness builds itself from the body-fixed plan at the restart state, re-initialisation must not raise. Sessions are sampled; split points are enumerated per session.",
+        "trusts the harness-built model (scenes.build with state override) and the harness's own unwrapped revolute angles; velocity-level solvers restart with compute_consistent_initial_conditions=False",
+        "deterministic simulation: crash/restart fault injection at enumerated split steps with durable-state seam (memory / file), differential oracle against the uninterrupted run and an independently built model, ddmin-shrunk replay files",
+    ),
 }
 
 _P = "claimed in DESIGN.md; its check is still under construction in this round and is therefore not registered yet"
-PENDING = {p: _P for p in ["C16", "C17", "C18", "C19", "C20", "C21", "C23", "C24", "C29"]}
+PENDING = {p: _P for p in ["C19", "C23", "C29"]}
 
 ENGINE_KIND = {
     "assembly": "operation-history machine (System registry / scatter) vs reference model",
     "coo": "operation-history machine (CooMatrix) vs dense model",
     "revolute": "operation-history machine (Revolute angle tracking) vs accumulator model",
     "cache": "interleaving machine (memoised vs unmemoised twin)",
+    "initcond": "session engine: assembly monitor + corrupted-restart faults",
+    "constraints": "session engine: per-step constraint monitors",
+    "contactlaws": "session engine: per-step contact-law monitors",
+    "solution": "session engine: Solution contract on every returned solution, truncation faults",
+    "nonconv": "convergence-fault injector over pilot-enumerated injection points",
+    "restart": "crash/restart injector over enumerated split steps",
 }
 
 
